@@ -19,10 +19,56 @@ def gen_cases(rng, tier):
                     cases.append({'id': 'c17-grid-%d' % i, 'cfg': cfg, 'hist': toks, 'sub': 'lsim',
                                   'tags': {'eager': eager, 'n': n, 'T': T}})
                     i += 1
+    # the statement itself: N taps in a row (each within T of the previous), the last one held, then released
+    KEYS = [45, 21, 44, 46, 47]       # x y z c v
+    j = 0
+    for eager in (False, True):
+        for L in (2, 3, 4, 5):
+            for N in range(1, L + 2):
+                T = rng.choice([30, 100])
+                cfg = '(defsrc a s)\n(deflayer l0 (%s %d (%s)) 1)' % ('tap-dance-eager' if eager else 'tap-dance', T, ' '.join('xyzcv'[:L]))
+                h = ['t5']
+                for k in range(min(N, L) if N > L else N):
+                    last = (k == (min(N, L) if N > L else N) - 1)
+                    h += ['p0,30', 't%d' % rng.randint(1, 4)]
+                    if not last:
+                        h += ['r0,30', 't%d' % rng.randint(1, max(1, T // 3))]
+                hold = rng.choice([5, T + 30])
+                h += ['t%d' % hold, 'r0,30', 't%d' % (T + 60)]
+                taps = min(N, L) if N > L else N
+                cases.append({'id': 'c17-spec-%d' % j, 'cfg': cfg, 'hist': h, 'sub': 'lsim', 'spec': {'eager': eager, 'L': L, 'taps': taps},
+                              'tags': {'eager': eager, 'n': L, 'taps': taps, 'mode': 'statement'}})
+                j += 1
     return cases
 
 
+def oracle(c, it):
+    if 'spec' not in c or not it or it[0].startswith('PARSE-') or any(l.startswith(('PANIC', 'ABORT', 'HANG')) for l in it):
+        return None
+    sp = c['spec']
+    KEYS = [45, 21, 44, 46, 47]
+    prev, downs, last = set(), {}, set()
+    for l in it:
+        if l.startswith('@') and ' K' in l:
+            cur = set(int(x) for x in l.split(' K', 1)[1].split(' C ')[0].split())
+            for k in cur - prev:
+                downs[k] = downs.get(k, 0) + 1
+            prev = cur
+            last = cur
+    want = KEYS[sp['taps'] - 1]
+    if sp['eager']:
+        exp = {k: 1 for k in KEYS[:sp['taps']]}
+    else:
+        exp = {want: 1}
+    if downs != exp:
+        return '%d taps on a %s of %d actions: expected key presses %s, saw %s' % (sp['taps'], 'tap-dance-eager' if sp['eager'] else 'tap-dance', sp['L'], exp, downs)
+    if last:
+        return 'keys left down at the end: %s' % sorted(last)
+    return None
+
+
 SPEC = {
+    'oracle': oracle,
     'id': 'C17', 'sub': 'lsim', 'gen_cases': gen_cases, 'nontrivial': trace_has_output,
     'rule': 'random C17-profile configs (lists of 1-4 keys/layers/tap-holds, lazy and eager) x consistent histories with gaps {0,1,T-1,T,T+1}' + '; non-trivial = distinct (config, trace) with output',
     'explanation': 'theorems: tap count = 1 + own presses before the first other press, the three end conditions, chosen action = min(count,len)-1, eviction keeps other keys in order',
